@@ -402,12 +402,25 @@ def run_property(prop, tier, only=None, keep=False, jobs=16, seed=0,
     t0 = time.time()
     with open(os.path.join(VERIF, 'units', prop + '.json')) as f:
         table = json.load(f)
+    for u in table['units']:
+        u['_common'] = table.get('common_replace', [])
+    # units shared with other properties: {"from": "C19", "names": [regex,..]}
+    for imp in table.get('import', []):
+        with open(os.path.join(VERIF, 'units', imp['from'] + '.json')) as f:
+            other = json.load(f)
+        have = set(u['name'] for u in table['units'])
+        for u in other['units']:
+            if u['name'] in have:
+                continue
+            if any(re.search(rx, u['name']) for rx in imp.get('names', ['.'])):
+                u = dict(u)
+                u['_common'] = other.get('common_replace', [])
+                u['imported_from'] = imp['from']
+                table['units'].append(u)
     units = [u for u in table['units']
              if tier in u.get('tiers', ['quick', 'thorough'])]
     if only:
         units = [u for u in units if u['name'] in only]
-    for u in units:
-        u['_common'] = table.get('common_replace', [])
     scr = make_scratch()
     workdir = os.path.join(scr, 'work')
     os.makedirs(workdir)
@@ -456,8 +469,7 @@ def run_property(prop, tier, only=None, keep=False, jobs=16, seed=0,
                     else:
                         r.reason = 'loop annotation failed; bounded fallback'
                     return r
-            return build_unit(u, root, workdir, tier,
-                              common_replace=table.get('common_replace', ()))
+            return build_unit(u, root, workdir, tier)
 
         order = list(units)
         if seed:
@@ -710,8 +722,14 @@ def do_replay(prop, path):
         doc = json.load(f)
     with open(os.path.join(VERIF, 'units', prop + '.json')) as f:
         table = json.load(f)
+    for imp in table.get('import', []):
+        with open(os.path.join(VERIF, 'units', imp['from'] + '.json')) as f:
+            other = json.load(f)
+        for x in other['units']:
+            x['_common'] = other.get('common_replace', [])
+            table['units'].append(x)
     u = next(x for x in table['units'] if x['name'] == doc['unit'])
-    u['_common'] = table.get('common_replace', [])
+    u.setdefault('_common', table.get('common_replace', []))
     scr = make_scratch()
     try:
         workdir = os.path.join(scr, 'work')
